@@ -72,7 +72,8 @@ def run(v, tier):
     none = {'len': 0, 'top': {'k': 'none', 'p': pi2v.EV(0)}, 'has': False}
     cases = [{'phase': q['phase'], 'bytes': q['bytes'], 'claims': q['claims'], 'out': 'ok' if r['out'] == 'ok' else 'raise',
               'exc': r['out'], 'rebytes': r['rebytes'], 'final': r['final'],
-              'orig': orig.get((q['phase'], tuple(q['bytes'])), none) if k < len(reqs) else none} for k, (q, r) in enumerate(zip(allreq, res))]
+              'orig': orig.get((q['phase'], tuple(q['bytes'])), none) if k < len(reqs) else none,
+              'produced': k < len(reqs)} for k, (q, r) in enumerate(zip(allreq, res))]
     v.cov['valid_streams'] = len(reqs)
     v.cov['malformed_variants'] = len(mal)
     v.sample({'phase': cases[0]['phase'], 'bytes': cases[0]['bytes'], 'out': cases[0]['exc']})
